@@ -7,7 +7,7 @@ import random
 
 from harness import lib, pagegen, fcwork, fc
 from harness.props import c01
-from harness.implrun import write_tree
+from harness.implrun import write_tree, quiet
 from harness import zdir as Z
 
 ASSUMPTIONS = c01.ASSUMPTIONS + [
@@ -65,7 +65,58 @@ def classify(res):
     return False, None, ""
 
 
-def db_scenario(text_good, text_bad):
+WL_COMPARED = [0]
+
+
+def wl_step(eng, d, cmd, update=False):
+    """Runs `db create` / `db reindex` for real and compares the accept/refuse decision and the resulting whitelist
+    file with the Coq model (coq/Model/Whitelist.v) fed with the real has_errors flags.
+    -> (outcome, mismatch or None); outcome in accepted | refused | exception:<name>"""
+    import hashlib
+    import json as _json
+    from pathlib import Path
+    from zorg.service import handlers
+    from zorg.service.compiler import walk_zorg_page
+    from zorg.shared import common as zc
+    zdir = Path(d)
+    wl_path = zdir / ".zorg" / "error_file_whitelist.txt"
+    old_text = wl_path.read_text() if wl_path.exists() else ""
+    model = None
+    try:
+        with quiet():
+            if cmd == "create":
+                paths = [zc.strip_zdir(zdir, q) for q in handlers._get_zo_paths_to_index(zdir)]
+            else:
+                hp = zdir / ".zorg" / "file_hash.json"
+                old = _json.loads(hp.read_bytes()) if hp.exists() else {}
+                cur = handlers._get_file_hash_map(zdir)
+                paths = [k for k, h in cur.items() if old.get(k) != h]
+            pages = [[str(q), bool(walk_zorg_page(zdir, Path(q)).has_errors)] for q in paths]
+        model = (eng.call("create_wl", update, old_text, pages) if cmd == "create"
+                 else eng.call("reindex_wl", old_text, pages))
+    except Exception:  # noqa: BLE001   (a page the compiler crashes on: outside this model)
+        model = None
+    try:
+        if cmd == "create":
+            Z.db_create(d, update_whitelist=update)
+        else:
+            Z.db_reindex(d)
+        outcome = "accepted"
+    except RuntimeError:
+        outcome = "refused"
+    except Exception as e:  # noqa: BLE001
+        outcome = "exception:" + type(e).__name__
+    mismatch = None
+    WL_COMPARED[0] += 1 if (model is not None and not outcome.startswith("exception")) else 0
+    if model is not None and not outcome.startswith("exception"):
+        new_text = wl_path.read_text() if wl_path.exists() else ""
+        impl = ["ok", new_text] if outcome == "accepted" else ["exn", "RuntimeError"]
+        if impl != list(model):
+            mismatch = {"cmd": cmd, "update": update, "whitelist_before": old_text, "pages": pages, "impl": impl, "model": model}
+    return outcome, mismatch
+
+
+def db_scenario(text_good, text_bad, eng=None, corr=None):
     """create; damage; reindex twice; create again -> list of problems."""
     probs = []
     with Z.tmpdir("c08_") as d:
@@ -102,14 +153,23 @@ def db_scenario(text_good, text_bad):
         # contain the whitelisted one are still refused; the whitelisted page itself stays accepted
         for other in ("oj.zo", "sub/proj.zo", "proj.zo.zo"):
             write_tree(d, {other: text_bad})
-            for cmd, fn in (("db create", Z.db_create), ("db reindex", Z.db_reindex)):
-                try:
-                    fn(d)
+            for cmd, key in (("db create", "create"), ("db reindex", "reindex")):
+                if eng is not None:
+                    outcome, mm = wl_step(eng, d, key)
+                    if mm and corr is not None:
+                        corr.append(mm)
+                else:
+                    try:
+                        (Z.db_create if key == "create" else Z.db_reindex)(d)
+                        outcome = "accepted"
+                    except RuntimeError:
+                        outcome = "refused"
+                    except Exception as e:  # noqa: BLE001
+                        outcome = "exception:" + type(e).__name__
+                if outcome == "accepted":
                     probs.append("%s accepted broken page %s; only proj.zo is whitelisted" % (cmd, other))
-                except RuntimeError:
-                    pass
-                except Exception as e:  # noqa: BLE001
-                    probs.append("%s raised %s on broken page %s" % (cmd, type(e).__name__, other))
+                elif outcome != "refused":
+                    probs.append("%s raised %s on broken page %s" % (cmd, outcome.split(":")[1], other))
             os.remove(os.path.join(d, other))
         try:
             Z.db_create(d)
@@ -164,9 +224,14 @@ def run(oc, tier, seed):
     # index scenarios
     n_sc = 3 if tier == "quick" else 25
     for text_bad in flagged[:n_sc]:
-        probs = db_scenario(rng.choice(valid), text_bad)
+        corr = []
+        probs = db_scenario(rng.choice(valid), text_bad, eng, corr)
         oc.evaluations += 1
         oc.count("db_scenarios")
+        oc.stats["whitelist_decisions_vs_model"] = WL_COMPARED[0]
+        if corr and not probs:
+            oc.corr_mismatch.append(("whitelist decision (create_wl / reindex_wl)", {"bad_page": text_bad}, corr[0]["impl"], corr[0]))
+            break
         if probs:
             oc.spec_fail.append(({"scenario": "create, damage, reindex x2, create, create --whitelist, then other broken pages with related names (create, reindex)", "bad_page": text_bad},
                                  probs, "refused unless whitelisted; never indexed", None))
